@@ -284,6 +284,34 @@ def run(p, report, tier):
             report.add(RULE, ent, construct, w.ev.loc, tag is not None,
                        detail=tag or why, nontrivial=True,
                        path=w.ev.path())
+    if tier == "thorough":
+        # every stream strategy combined with every project budget manager a
+        # user may pass (the quick tier resolves only the default manager)
+        from ..absint import AV, FS
+        bms = [c for c in p.exported_classes("skactiveml.stream.budgetmanager")
+               if p.find_method(c, "query_by_utility") is not None and not is_abstract(p.find_method(c, "query_by_utility"))]
+        combos = 0
+        for ci, f in ents:
+            if "budget_manager" not in p.init_stored_attrs(ci):
+                continue
+            for bm in bms:
+                it = Interp(p)
+                it.heap[("self", ("budget_manager",))] = AV(origins=FS([("self", ("budget_manager",))]),
+                                                             cls=FS(["P:" + bm.name]))
+                it.run_entity(ci, f)
+                n_events += len(it.events)
+                dis = Discharger(p, ci, it)
+                ent = f"{ci.name}.{f.name}[budget_manager={bm.name}]"
+                combos += 1
+                seen = set()
+                for w in writes(it.events, roots=("self",)):
+                    construct = f"{w.locname()} {w.kind} in {w.ev.fi.qual}: {norm_stmt(w.ev.node)}"
+                    if construct in seen:
+                        continue
+                    tag, why = dis.classify(w)
+                    seen.add(construct)
+                    report.add(RULE, ent, construct, w.ev.loc, tag is not None, detail=tag or why, path=w.ev.path())
+        report.analysed["strategy_x_manager_combinations"] = combos
     report.analysed["events"] = n_events
     report.analysed["diagnostics"] = sorted(diag)
     report.assumptions += [
